@@ -8,10 +8,10 @@ package ref
 import "errors"
 
 const (
-	probBits  = 11
-	probInit  = 1 << (probBits - 1)
-	moveBits  = 5
-	topValue  = 1 << 24
+	probBits = 11
+	probInit = 1 << (probBits - 1)
+	moveBits = 5
+	topValue = 1 << 24
 )
 
 // ErrTruncated is returned when the compressed input ends early.
